@@ -411,7 +411,11 @@ func genBidSpec(t *rapid.T) BidSpec {
 		case 7:
 			b.Sign = rapid.SampledFrom([]string{"zero", "flipped", "infinity"}).Draw(t, "badBidSign")
 		default:
-			b.Muts = append(b.Muts, Mutation{Path: rapid.IntRange(0, 60).Draw(t, "bidMutPath"), Op: rapid.SampledFrom(mutationOps).Draw(t, "bidMutOp")})
+			m := Mutation{Path: rapid.IntRange(0, 60).Draw(t, "bidMutPath"), Op: rapid.SampledFrom(mutationOps).Draw(t, "bidMutOp")}
+			if m.Op == "set" {
+				m.Val = rapid.SampledFrom(boundaryStrings).Draw(t, "bidMutVal")
+			}
+			b.Muts = append(b.Muts, m)
 		}
 	}
 	return b
@@ -422,7 +426,8 @@ func genRelaySpec(t *rapid.T) RelaySpec {
 		UserPubkey:   rapid.SampledFrom([]string{"none", "none", "none", "match", "match", "match", "match", "other", "short", "junk", "nothex"}).Draw(t, "userPubkey"),
 		ConfigPubkey: rapid.SampledFrom([]string{"none", "none", "none", "match", "match", "match", "other", "junk"}).Draw(t, "configPubkey"),
 		GraceMs:      rapid.SampledFrom([]int{0, 0, 0, 1, 5}).Draw(t, "graceMs"),
-		MinValue:     rapid.SampledFrom([]string{"0", "0", "0", "1", "1000000000000000000", "1e30", "0.5"}).Draw(t, "minValue"),
+		MinValue:     rapid.SampledFrom([]string{"0", "0", "0", "1", "1000000000000000000", "1e30", "0.5", "18446744073709551615", "18446744073709551616",
+			"115792089237316195423570985008687907853269984665640564039457584007913129639935", "115792089237316195423570985008687907853269984665640564039457584007913129639936"}).Draw(t, "minValue"),
 	}
 	if rapid.IntRange(0, 7).Draw(t, "malformed") == 0 {
 		r.Address = rapid.SampledFrom(malformedAddresses).Draw(t, "malformedAddress")
@@ -441,7 +446,8 @@ func genRelaySpec(t *rapid.T) RelaySpec {
 func genBidsCase(t *rapid.T) Case {
 	c := &BidsCase{
 		Strategy:       rapid.SampledFrom([]string{"best", "best", "deadline"}).Draw(t, "strategy"),
-		Slot:           rapid.SampledFrom([]uint64{1, 2, 100, 1000000}).Draw(t, "slot"),
+		// the slot only has to stay below 2^63 ns / 12 s so that the harness clock can place "now" at its start
+		Slot:           rapid.SampledFrom([]uint64{0, 1, 2, 100, 1000000, 1<<29 - 1, 1 << 29}).Draw(t, "slot"),
 		ParentHashZero: rapid.IntRange(0, 29).Draw(t, "parentHashZero") == 0,
 		Pubkey:         rapid.SampledFrom([]int{0, 0, 0, 0, 0, 1, 2, 1, 2, nKeys, nKeys + 1}).Draw(t, "pubkey"),
 	}
